@@ -77,12 +77,12 @@ def check(run, P):
 def _scope(run, P):
     # consumers are per phase
     up = P.func("dagrt.language.ExecutionController.update_plan")
-    ok = any(isinstance(s, ast.Assign) and dotted(s.value) == "phase.id_to_stmt"
-             for s in func_body_stmts(up.node))
+    from .util import find, has
+    ok = has(f"V_t = {up.params[1]}.id_to_stmt", up.node)
     ca = P.func("dagrt.codegen.dag_ast.create_ast_from_phase")
-    ok2 = any(isinstance(s, ast.Assign) and isinstance(s.value, ast.DictComp)
-              and dotted(s.value.generators[0].iter) == "phase.statements"
-              for s in func_body_stmts(ca.node))
+    ph = find(f"V_ph = {ca.params[0]}.phases[{ca.params[1]}]", ca.node)
+    ok2 = bool(ph) and has("V_m = {V_i.id: V_i for V_i in V_ph.statements}", ca.node,
+                           {"V_ph": ph[0][1]["V_ph"]})
     run.ob("C10.scope", up, up.node, ok and ok2,
            construct="consumers resolve dependency ids per phase "
                      "(phase.id_to_stmt / {inst.id: inst for inst in phase.statements})",
@@ -219,38 +219,39 @@ def calls(run, P, rule):
 
 
 def _raise(run, P):
+    from .util import find, has
     f = P.func(f"{MOD}.verify_code")
-    raises = [s for s in func_body_stmts(f.node) if isinstance(s, ast.Raise)]
-    final = [s for s in raises if s.exc is not None and isinstance(s.exc, ast.Call)
-             and dotted(s.exc.func) == "CodeGenerationError"]
+    # the error list: the name passed as second argument to the passes
+    errs = None
+    for x in ast.walk(f.node):
+        if isinstance(x, ast.Call) and dotted(x.func) == "verify_all_dependencies_exist" \
+                and len(x.args) >= 2 and isinstance(x.args[1], ast.Name):
+            errs = x.args[1].id
+    if errs is None:
+        raise AnalysisError("verify_code: error list not identified")
     ok = False
     site = f.node
-    for s in final:
-        par = None
-        for n in ast.walk(f.node):
-            if isinstance(n, ast.If) and any(b is s for b in n.body):
-                par = n
-        if par is not None and isinstance(par.test, ast.Name) and s.exc.args \
-                and dotted(s.exc.args[0]) == par.test.id and par in f.node.body:
+    for n in f.node.body:
+        if isinstance(n, ast.If) and dotted(n.test) == errs and n.body \
+                and has(f"raise CodeGenerationError({errs})", n.body[0]) and not n.orelse:
             ok = True
-            site = par
+            site = n
     run.ob("C10.raise", f, site, ok,
-           construct="if errors: raise CodeGenerationError(errors) at function level",
+           construct="if <errors>: raise CodeGenerationError(<errors>) at function level",
            why="an ill-formed method must raise the documented error carrying the messages")
-    # handlers
     tries = [n for n in ast.walk(f.node) if isinstance(n, ast.Try)]
     for t in tries:
         for h in t.handlers:
-            rr = [s for s in ast.walk(h) if isinstance(s, ast.Raise)]
+            rr = [s_ for s_ in ast.walk(h) if isinstance(s_, ast.Raise)]
             ok = True
             for r in rr:
                 par = None
                 for n in ast.walk(h):
-                    if isinstance(n, ast.If) and any(b is r for b in n.body):
+                    if isinstance(n, ast.If) and any(b_ is r for b_ in n.body):
                         par = n
                 tst = ast.unparse(par.test) if par is not None else ""
                 ok = ok and par is not None and tst in (
-                    "len(errors) == 0", "not errors", "errors == []", "not len(errors)")
+                    f"len({errs}) == 0", f"not {errs}", f"{errs} == []", f"not len({errs})")
             run.ob("C10.raise", f, h, ok and bool(rr),
                    construct=f"except {norm(h.type) if h.type else ''}: re-raise only if no error recorded",
                    why="a pass failing on malformed input after errors were recorded "
@@ -263,66 +264,73 @@ def _raise(run, P):
 
 
 def _cycle(run, P):
+    from .util import find, first, has
     f = P.func(f"{MOD}.verify_no_circular_dependencies")
-    stmts_param = f.params[0]
-    g = CFG(f.node)
-    # stack initialised from every statement
-    init = [s for s in func_body_stmts(f.node) if isinstance(s, ast.Assign)
-            and any(isinstance(t, ast.Name) and t.id == "stack" for t in s.targets)]
+    stmts_param, errs = f.params[0], f.params[1]
+    loop = [n for n in f.node.body if isinstance(n, ast.While) and isinstance(n.test, ast.Name)]
+    if len(loop) != 1:
+        raise AnalysisError("verify_no_circular_dependencies: main loop not found")
+    lp = loop[0]
+    stack = lp.test.id
+    init = [s_ for s_ in func_body_stmts(f.node) if isinstance(s_, ast.Assign)
+            and any(isinstance(t, ast.Name) and t.id == stack for t in s_.targets)]
     ok = len(init) == 1 and isinstance(init[0].value, ast.Call) \
         and dotted(init[0].value.func) in ("list", "sorted") and init[0].value.args \
         and dotted(init[0].value.args[0]) == stmts_param
     run.ob("C10.cycle", f, init[0] if init else f.node, ok,
-           construct=norm(init[0]) if init else "stack = ...",
+           construct=norm(init[0]) if init else "<stack> = ...",
            why="a cycle that is not reachable from the start set (a detached cycle, "
                "a phase that is one big cycle) is never visited")
-    loop = [n for n in f.node.body if isinstance(n, ast.While)]
-    if len(loop) != 1:
-        raise AnalysisError("verify_no_circular_dependencies: main loop not found")
-    lp = loop[0]
-    if not (len(lp.body) >= 2 and isinstance(lp.body[-1], ast.If)):
+    top_n, env = first(f"V_top = {stack}[-1]", lp)
+    if top_n is None or not (len(lp.body) >= 2 and isinstance(lp.body[-1], ast.If)):
         raise AnalysisError("verify_no_circular_dependencies: expand/finish branch not found")
+    top = env["V_top"]
     br = lp.body[-1]
-    t = ast.unparse(br.test)
-    if "not in visited" in t:
-        expand, finish = br.body, br.orelse
-    elif "in visited" in t:
-        expand, finish = br.orelse, br.body
+    m1 = first(f"{top}.id not in V_visited", br.test)
+    m2 = first(f"{top}.id in V_visited", br.test)
+    if m1[0] is not None:
+        visited, expand, finish = m1[1]["V_visited"], br.body, br.orelse
+    elif m2[0] is not None:
+        visited, expand, finish = m2[1]["V_visited"], br.orelse, br.body
     else:
-        raise AnalysisError(f"verify_no_circular_dependencies: unrecognised test {t}")
-    esrc = "\n".join(ast.unparse(s) for s in expand)
-    fsrc = "\n".join(ast.unparse(s) for s in finish)
-    ok = "visited.add(" in esrc and "visiting.add(" in esrc
+        raise AnalysisError(f"verify_no_circular_dependencies: unrecognised test {norm(br.test)}")
+    adds = []
+    for s_ in expand:
+        for n_, b_ in find(f"V_set.add({top}.id)", s_):
+            adds.append(b_["V_set"])
+    visiting = [a_ for a_ in adds if a_ != visited]
+    ok = visited in adds and len(visiting) == 1
     run.ob("C10.cycle", f, expand[0], ok,
            construct="first expansion marks visited and visiting",
            why="a node not marked visiting cannot close a cycle; one not marked "
                "visited is expanded forever")
-    # edge loop: test before push
-    eloops = [n for s in expand for n in ast.walk(s) if isinstance(n, ast.For)
-              and "depends_on" in ast.unparse(n.iter)]
+    visiting = visiting[0] if visiting else "?"
+    eloops = [n for s_ in expand for n in ast.walk(s_) if isinstance(n, ast.For)
+              and norm(n.iter) == f"{top}.depends_on"]
     ok = False
-    if len(eloops) == 1:
+    if len(eloops) == 1 and isinstance(eloops[0].target, ast.Name):
         el = eloops[0]
-        v = el.target.id if isinstance(el.target, ast.Name) else None
+        v = el.target.id
         body = el.body
         if len(body) >= 2 and isinstance(body[0], ast.If) \
-                and ast.unparse(body[0].test) == f"{v} in visiting" \
-                and any(isinstance(s, ast.Return) for s in body[0].body) \
-                and any("errors.append(" in ast.unparse(s) for s in body[0].body) \
-                and "stack.append(" in ast.unparse(body[-1]):
+                and ast.unparse(body[0].test) == f"{v} in {visiting}" \
+                and any(isinstance(s_, ast.Return) for s_ in body[0].body) \
+                and any(has(f"{errs}.append(ANY)", s_) for s_ in body[0].body) \
+                and has(f"{stack}.append(V_tbl[{v}])", body[-1]):
             ok = True
     run.ob("C10.cycle", f, eloops[0] if eloops else expand[0], ok,
            construct="for every dependency: 'in visiting' -> report and return, else push",
            why="an edge into a node on the current path is a cycle; pushing without "
                "the test loops forever or misses it")
-    ok = "visiting.remove(" in fsrc or "visiting.discard(" in fsrc
+    ok = any(has(f"{visiting}.remove({top}.id)", s_) or has(f"{visiting}.discard({top}.id)", s_)
+             for s_ in finish)
     run.ob("C10.cycle", f, finish[0] if finish else br, ok,
            construct="finished node leaves 'visiting'",
            why="a finished node left in 'visiting' reports a false cycle on a diamond")
     last = finish[-1] if finish else None
-    ok = last is not None and ast.unparse(last) == "stack.pop()"
+    ok = last is not None and ast.unparse(last) == f"{stack}.pop()"
     run.ob("C10.cycle", f, last if last is not None else br, ok,
-           construct="finished branch ends with an unconditional stack.pop()",
+           construct="finished branch ends with an unconditional <stack>.pop()",
            why="termination: every iteration marks a new node or pops")
 
 
